@@ -28,7 +28,12 @@ def acopy(node):
         par = getattr(n, "_parent", None)
         if par is not None:
             memo[id(par)] = par
-    return copy.deepcopy(node, memo)
+    out = copy.deepcopy(node, memo)
+    for root in (out if isinstance(out, list) else [out]):
+        if isinstance(root, ast.AST):
+            for n in ast.walk(root):
+                n.__dict__.pop("_parent", None)
+    return out
 
 
 class InlineBlock(ast.stmt):
@@ -59,8 +64,10 @@ class Inliner:
             node = r[2] if len(r) > 2 else r[1]
             if isinstance(node, (ast.FunctionDef, ast.AsyncFunctionDef)):
                 decos = [ast.unparse(d) for d in node.decorator_list]
-                if any(d in ("staticmethod", "property") for d in decos):
+                if "property" in decos:
                     return None
+                if "staticmethod" in decos:
+                    return ("func", f.attr, node)
                 first = node.args.args[0].arg if node.args.args else None
                 if "classmethod" in decos:
                     if first != "cls" or f.value.id != "cls":
